@@ -150,3 +150,23 @@ def flag_rows(cls):
     flags = bool_flags(cls)
     for combo in itertools.product([False, True], repeat=len(flags)):
         yield dict(zip(flags, combo))
+
+
+def stepper_forms(it, cls, D, parity, name="u", **kw):
+    """construct the stepper symbolically (ETDRK1-4 stubbed) and return its canonical pieces"""
+    from .harness import state_hat
+
+    o = build(it, cls, D, **kw)
+    integ = o.f.get("_integrator")
+    if not isinstance(integ, Obj):
+        raise AnalysisBroken(f"{cls.name}: no integrator object")
+    lin = integ.f.get("arg_linear_operator")
+    if lin is None:
+        lin = integ.f.get("linear_operator")
+    nf = integ.f.get("arg_nonlinear_fun")
+    C = o.f.get("num_channels")
+    out = None
+    u = state_hat(D, C, parity, name)
+    if nf is not None:
+        out = it.call(nf, [u])
+    return {"obj": o, "L": lin, "N": out, "C": C, "u": u, "nf": nf, "integrator": integ.cls.name, "dt": o.f.get("dt")}
